@@ -1,12 +1,13 @@
 #!/bin/sh
 # Build the verification framework from files on disk only (offline).
-set -e
-cd "$(dirname "$0")"
+cd "$(dirname "$0")" || exit 1
+echo "[setup] start in $(pwd) as $(id -un); PATH=$PATH"
 export CARGO_NET_OFFLINE=true
 mkdir -p work evidence replays
-(cd harness && cargo build --offline --quiet --features batch --target-dir target-batch)
-(cd harness && cargo build --offline --quiet --target-dir target-nobatch)
+echo "[setup] cargo: $(command -v cargo)  tlc: $(command -v tlc)  tla-sany: $(command -v tla-sany)"
+(cd harness && cargo build --offline --quiet --features batch --target-dir target-batch) || { echo "[setup] harness (batch) build failed"; exit 1; }
+(cd harness && cargo build --offline --quiet --target-dir target-nobatch) || { echo "[setup] harness (no batch) build failed"; exit 1; }
 for m in spec/Trace.tla spec/TraceFn.tla; do
-  tla-sany "$m" >/dev/null
+  tla-sany "$m" >/dev/null 2>&1 || { echo "[setup] $m does not parse"; exit 1; }
 done
-echo "setup ok"
+echo "[setup] ok"
